@@ -398,6 +398,12 @@ func (r *rewriter) apply() {
 					c.Replace(r.call("FSWrite", sel.X, n.Args[0]))
 				}
 			}
+			if sel, ok := n.Fun.(*ast.SelectorExpr); ok && sel.Sel.Name == "WriteAt" && len(n.Args) == 2 {
+				if ok, ptr := isNamed(r.typeOf(sel.X), "os", "File"); ok && ptr {
+					r.stats["fs"]++
+					c.Replace(r.call("FSWriteAt", sel.X, n.Args[0], n.Args[1]))
+				}
+			}
 		}
 		return true
 	})
